@@ -28,21 +28,23 @@ namespace c14 {
       KIND("Handler", auto* b = L.make_block(*c.work); auto* h = b->new_handler(c.oname(), c.oty());
            return c.I(*h, {c.typing(h->body().typing, "body_typing")});)
       // ---- declarations -------------------------------------------------------------------------------------------------------
-      KIND("Alias", auto* n = c.work->make_subregion()->scope.make_alias(c.oname(), c.oe(1)); return c.I(*n, {c.home(n), c.langlinkage(n)});)
-      KIND("Var", auto* n = c.work->make_subregion()->declare_var(c.oname(), c.oty(1));
+      // `c.decl_region()` is a fresh region; for the `#after-<Y>` kinds registered at the end of this section it already holds a
+      // declaration of ANOTHER kind (and type) under the very name the declaration under observation is about to take
+      KIND("Alias", auto* n = c.decl_region()->scope.make_alias(c.oname(), c.oe(1)); return c.I(*n, {c.home(n), c.langlinkage(n)});)
+      KIND("Var", auto* n = c.decl_region()->declare_var(c.oname(), c.oty(1));
            return c.I(*n, {c.optE("init", n->init), c.optR("lexreg", n->lexreg), c.home(n), c.langlinkage(n),
                            c.optG("def", n->decl_data.master_data->def, [&c] { return &c.some_var(); })});)
       KIND("Var#redeclared", auto* r = c.work->make_subregion(); r->declare_var(c.oname(), c.oty(1)); auto* n = r->declare_var(c.oname(), c.oty(1));
            return c.I(*n, {c.optE("init", n->init), c.optR("lexreg", n->lexreg), c.home(n), c.langlinkage(n),
                            c.optG("def", n->decl_data.master_data->def, [&c] { return &c.some_var(); })});)
-      KIND("Field", auto* n = c.work->make_subregion()->declare_field(c.oname(), c.oty(1));
+      KIND("Field", auto* n = c.decl_region()->declare_field(c.oname(), c.oty(1));
            return c.I(*n, {c.optE("init", n->init), c.home(n), c.langlinkage(n)});)
-      KIND("Bitfield", auto* n = c.work->make_subregion()->declare_bitfield(c.oname(), c.oty(1));
+      KIND("Bitfield", auto* n = c.decl_region()->declare_bitfield(c.oname(), c.oty(1));
            return c.I(*n, {c.optE("length", n->length), c.optE("init", n->init), c.home(n), c.langlinkage(n)});)
-      KIND("Typedecl", auto* n = c.work->make_subregion()->declare_type(c.oname(), c.oty(1));
+      KIND("Typedecl", auto* n = c.decl_region()->declare_type(c.oname(), c.oty(1));
            return c.I(*n, {c.typing(n->init, "init"), c.optR("lexreg", n->lexreg), c.home(n), c.langlinkage(n),
                            c.optG("def", n->decl_data.master_data->def, [&c] { return c.work->declare_type(c.fresh_id(), c.oty(2)); })});)
-      KIND("Fundecl", auto* n = c.work->make_subregion()->declare_fun(c.oname(), L.get_function(c.product(), c.oty(2)));
+      KIND("Fundecl", auto* n = c.decl_region()->declare_fun(c.oname(), L.get_function(c.product(), c.oty(2)));
            Link data{"data", 4, [&c, n](int code) {
               if (code == 1) { auto& m = c.some_mapping(); c.sym("$data", m.inputs); n->data.emplace<0>(&m.inputs); }
               else if (code == 2) { auto& m = c.some_mapping(); c.sym("$data", m); c.sym("$data.parameters", m.inputs); n->data.emplace<1>(&m); }
@@ -55,7 +57,7 @@ namespace c14 {
          add(primary ? "Template" : "Template#secondary", [primary](Ctx& c, const Codes&) -> Instance {
             auto& L = c.lex;
             auto& forall = L.get_forall(c.product(), c.oty(2));
-            auto* r = c.work->make_subregion();
+            auto* r = c.decl_region();
             auto* n = primary ? r->declare_primary_template(c.oname(), forall) : r->declare_secondary_template(c.oname(), forall);
             Link init{"init", 3, [&c, n](int code) {
                if (code == 0) return;
@@ -71,6 +73,25 @@ namespace c14 {
             if (not primary) links.push_back(c.optG("primary", n->decl_data.master_data->primary, other));
             return c.I(*n, links);
          });
+      // A name may carry declarations of DIFFERENT kinds (a function, then a template; a variable, then a class ...): every
+      // declaration kind of a general scope is swept once more as the SECOND declaration under a name that a declaration of each
+      // other kind (with another type) already took.  Links, accessors and required outcomes are those of the kind itself: what
+      // was declared earlier under the name changes nothing for this node (in particular no link is filled in from it).
+      {
+         const char* const decl_kinds[] = {"Alias", "Var", "Field", "Bitfield", "Typedecl", "Fundecl", "Template", "Template#secondary"};
+         for (const char* x : decl_kinds) {
+            auto base = std::find_if(kinds.begin(), kinds.end(), [&](const Kind& kd) { return kd.name == x; })->make;
+            for (int y = 0; y < 8; ++y) {
+               if (std::string(x) == decl_kinds[y]) continue;
+               add(std::string(x) + "#after-" + decl_kinds[y], [base, y](Ctx& c, const Codes& k) -> Instance {
+                  c.predeclare = y;
+                  Instance in = base(c, k);
+                  c.predeclare = -1;
+                  return in;
+               });
+            }
+         }
+      }
       KIND("Parameter", auto& m = c.some_mapping(); auto* n = m.param(c.oname(1), c.oty(1)); return c.I(*n, {c.optE("init", n->init)});)
       KIND("Enumerator", auto* e = L.make_enum(*c.work, ipr::Enum::Kind::Legacy); auto* n = e->add_member(c.oname());
            return c.I(*n, {c.optE("init", n->init)});)
